@@ -131,15 +131,21 @@ func admRun(t *testing.T, lines []string) []string {
 				outs = appendLive(outs, "ok")
 			case "req":
 				outs = appendLive(outs, w.admReq(f))
-			case "route":
+			case "route": // adm route <path hex> [method]: which handler serves the path
 				before := len(w.served)
 				nsock := len(w.socks)
-				h := w.request("GET", string(unhx(f[2]))+"?transport=polling&EIO=4", nil, nil, false, true)
+				method := "GET"
+				if len(f) > 3 {
+					method = f[3]
+				}
+				h := w.request(method, string(unhx(f[2]))+"?transport=polling&EIO=4", nil, nil, false, true)
 				switch {
 				case len(w.served) > before:
 					outs = appendLive(outs, w.served[len(w.served)-1])
 				case len(w.socks) == nsock+1 && h.rec.Code == 200:
 					outs = appendLive(outs, "engine")
+				case method != "GET" && h.rec.Code == 400 && strings.Contains(h.rec.Body.String(), "Bad handshake method"):
+					outs = appendLive(outs, "engine") // the engine's own refusal of a handshake that is not a GET
 				default:
 					outs = appendLive(outs, fmt.Sprintf("other status=%d", h.rec.Code))
 				}
@@ -608,8 +614,18 @@ func famAdmRoute(t *testing.T, r *Rec) {
 			paths := []string{base + "/", base, base + "/x", base + "//", base + "/./", base + "/../" + strings.TrimPrefix(base, "/") + "/",
 				"/" + base + "/", strings.ToUpper(base) + "/", base + "x/", "/", "/static/app.js", base + "/admin/", base + "/admin/x", "/other", base + "/a/../"}
 			var exp []string
-			for _, p := range paths {
-				lines = append(lines, "adm route "+hx([]byte(p)))
+			// the routing rule is about the cleaned path whatever the method: repeat a few paths as CONNECT / POST
+			methods := make([]string, len(paths))
+			for _, p := range []string{base + "/../" + strings.TrimPrefix(base, "/") + "/", "/" + base + "/", base + "/a/../", base + "/../app", "/x/.." + base + "/", base + "/"} {
+				paths = append(paths, p, p)
+				methods = append(methods, "CONNECT", "POST")
+			}
+			for pi, p := range paths {
+				if methods[pi] != "" {
+					lines = append(lines, "adm route "+hx([]byte(p))+" "+methods[pi])
+				} else {
+					lines = append(lines, "adm route "+hx([]byte(p)))
+				}
 				cp := refClean(p)
 				// most specific registered pattern wins (exact, else longest prefix)
 				all := append(append([]string{a.engine}, app[0]...), app[1]...)
